@@ -308,9 +308,9 @@ func (c *collector) finish() error {
 					return err
 				}
 				if grows {
-					ctx.Violation(k, what+" | still overflows a 256 MiB stack when the structure is made 16 times longer: the depth grows with the input", rc)
+					ctx.Violation(k, what+" | still overflows a 128 MiB stack when the structure is made 8 times longer: the depth grows with the input", rc)
 				} else {
-					note("bounded-recursion", k, what+" | fits into 256 MiB also when the structure is made 16 times longer: a bounded recursion deeper than the 16 MiB screening cap")
+					note("bounded-recursion", k, what+" | fits into 128 MiB also when the structure is made 8 times longer: a bounded recursion deeper than the 16 MiB screening cap")
 				}
 			default:
 				ctx.Violation(k, what, rc)
@@ -347,9 +347,9 @@ func (c *collector) finish() error {
 
 // confirmStack decides whether a stack overflow under the screening cap is a
 // recursion that grows with the input: the case is run again under a cap of
-// 256 MiB - four times what go-pdf's own bounds (256 references times 256
-// levels of direct nesting) can need - and, if it is a generated structure,
-// made 16 times longer.  An endless recursion and one that follows the length
+// 128 MiB - twice what go-pdf's own bounds (256 references times 256 levels
+// of direct nesting) can need - and, if it is a generated structure, made 8
+// times longer.  An endless recursion and one that follows the length
 // of a chain overflow again; a bounded one does not.
 func (c *collector) confirmStack(req *Req, rc *replayCase) (bool, error) {
 	pool, err := newPool()
@@ -357,15 +357,16 @@ func (c *collector) confirmStack(req *Req, rc *replayCase) (bool, error) {
 		return false, err
 	}
 	pool.confirming = true
-	pool.stackMB = 256
-	pool.Watchdog = c.pool.Watchdog * 3
+	pool.stackMB = 128
+	pool.Watchdog = c.pool.Watchdog * 3 / 2
 	r := rc.req()
 	if req.Family != nil {
 		f := *req.Family
-		f.Size *= 16
+		f.Size *= 8
 		r = &Req{ID: "scaled", Family: &f, GraceMs: 3000}
 	}
 	r.Only = rc.Call
+	r.NoRetry = true
 	w, res := pool.runCase(nil, r)
 	w.kill()
 	if res.Infra != nil {
